@@ -145,9 +145,34 @@ pub mod io {
             Poll::Ready(Ok(()))
         }
     }
+    pub struct Write<'a, W: ?Sized> { writer: &'a mut W, buf: &'a [u8] }
+    impl<W: AsyncWrite + Unpin + ?Sized> Future for Write<'_, W> {
+        type Output = io::Result<usize>;
+        fn poll(mut self: Pin<&mut Self>, cx: &mut Context<'_>) -> Poll<io::Result<usize>> {
+            let me = &mut *self;
+            Pin::new(&mut *me.writer).poll_write(cx, me.buf)
+        }
+    }
+    pub struct Flush<'a, W: ?Sized> { writer: &'a mut W }
+    impl<W: AsyncWrite + Unpin + ?Sized> Future for Flush<'_, W> {
+        type Output = io::Result<()>;
+        fn poll(mut self: Pin<&mut Self>, cx: &mut Context<'_>) -> Poll<io::Result<()>> {
+            let me = &mut *self;
+            Pin::new(&mut *me.writer).poll_flush(cx)
+        }
+    }
     pub trait AsyncWriteExt: AsyncWrite {
         fn write_all<'a>(&'a mut self, src: &'a [u8]) -> WriteAll<'a, Self> where Self: Unpin {
             WriteAll { writer: self, buf: src }
+        }
+        fn write<'a>(&'a mut self, src: &'a [u8]) -> Write<'a, Self> where Self: Unpin {
+            Write { writer: self, buf: src }
+        }
+        fn flush(&mut self) -> Flush<'_, Self> where Self: Unpin {
+            Flush { writer: self }
+        }
+        fn shutdown(&mut self) -> Flush<'_, Self> where Self: Unpin {
+            Flush { writer: self }
         }
     }
     impl<W: AsyncWrite + ?Sized> AsyncWriteExt for W {}
@@ -304,7 +329,8 @@ pub mod macros_support {
 }
 
 /// Model of two-branch `tokio::select!` without preconditions / else: both futures are created,
-/// polled starting from a nondeterministically chosen branch, the first ready one wins, and both
+/// polled starting from a nondeterministically chosen branch, the first ready one whose pattern
+/// matches wins (a ready branch whose pattern does not match is disabled, as in tokio), and both
 /// futures are dropped before the winning handler runs.
 #[macro_export]
 macro_rules! select {
@@ -316,21 +342,34 @@ macro_rules! select {
             let mut __f0 = unsafe { $crate::macros_support::Pin::new_unchecked(&mut __f0) };
             let mut __f1 = unsafe { $crate::macros_support::Pin::new_unchecked(&mut __f1) };
             let __start = $crate::verif::choose(2);
+            let mut __dis0 = false;
+            let mut __dis1 = false;
             $crate::macros_support::poll_fn(|cx| {
                 use $crate::macros_support::{Future, Out2, Poll};
-                if __start == 0 {
-                    if let Poll::Ready(v) = __f0.as_mut().poll(cx) { return Poll::Ready(Out2::A(v)); }
-                    if let Poll::Ready(v) = __f1.as_mut().poll(cx) { return Poll::Ready(Out2::B(v)); }
-                } else {
-                    if let Poll::Ready(v) = __f1.as_mut().poll(cx) { return Poll::Ready(Out2::B(v)); }
-                    if let Poll::Ready(v) = __f0.as_mut().poll(cx) { return Poll::Ready(Out2::A(v)); }
+                for __k in 0..2u32 {
+                    if (__start + __k) % 2 == 0 {
+                        if !__dis0 {
+                            if let Poll::Ready(v) = __f0.as_mut().poll(cx) {
+                                #[allow(irrefutable_let_patterns, unused_variables)]
+                                if let $p0 = &v { return Poll::Ready(Out2::A(v)); } else { __dis0 = true; }
+                            }
+                        }
+                    } else if !__dis1 {
+                        if let Poll::Ready(v) = __f1.as_mut().poll(cx) {
+                            #[allow(irrefutable_let_patterns, unused_variables)]
+                            if let $p1 = &v { return Poll::Ready(Out2::B(v)); } else { __dis1 = true; }
+                        }
+                    }
                 }
+                if __dis0 && __dis1 { panic!("all branches are disabled and there is no else branch"); }
                 Poll::Pending
             }).await
         };
+        #[allow(unreachable_patterns)]
         match __out {
             $crate::macros_support::Out2::A($p0) => $h0,
             $crate::macros_support::Out2::B($p1) => $h1,
+            _ => unreachable!(),
         }
     }};
 }
